@@ -42,18 +42,19 @@ type connObs struct {
 }
 
 type caseObs struct {
-	Conns     []connObs
-	ProbeNew  bool
-	ProbeOld  bool
-	Alloc     uint64
-	HeapDelta int64
-	GorBefore int
-	GorAfter  int
-	Panics    int // "recovered panic" lines logged by the server during the case
-	Alive     bool
-	Races     int
-	InputHash string
-	Stderr    string `json:",omitempty"`
+	Conns        []connObs
+	ProbeNew     bool
+	ProbeOld     bool
+	Alloc        uint64
+	HeapDelta    int64
+	GorBefore    int
+	GorAfter     int
+	Panics       int // "recovered panic" lines logged by the server during the case
+	Alive        bool
+	Races        int
+	StallRetries int // stall family: attempts repeated because the client-side schedule was not met (machine load)
+	InputHash    string
+	Stderr       string `json:",omitempty"`
 }
 
 type request struct {
@@ -344,7 +345,13 @@ func (s *server) runCase(in caseIn) caseObs {
 	runtime.ReadMemStats(&m0)
 	obs.Conns = make([]connObs, len(in.Conns))
 	if len(in.Conns) > 0 && in.Conns[0].Stall {
-		obs.Conns = runStallConns(s.addr, in.Conns)
+		for attempt := 0; attempt < 3; attempt++ {
+			var ok bool
+			if obs.Conns, ok = runStallConns(s.addr, in.Conns); ok {
+				break
+			}
+			obs.StallRetries++
+		}
 	} else if len(in.Conns) == 1 {
 		obs.Conns[0] = runConn(s.addr, in.Conns[0], patience[0])
 	} else {
@@ -720,6 +727,9 @@ func render(in caseIn, obs caseObs) Case {
 	}
 	fmt.Fprintf(&txt, " probe on a new connection=%v, on the long-lived connection=%v; TotalAlloc delta=%d HeapAlloc delta=%d; goroutines %d -> %d; recovered panics=%d; races=%d; process alive=%v",
 		obs.ProbeNew, obs.ProbeOld, obs.Alloc, obs.HeapDelta, obs.GorBefore, obs.GorAfter, obs.Panics, obs.Races, obs.Alive)
+	if obs.StallRetries > 0 {
+		tags["stall_schedule_retries"] += obs.StallRetries
+	}
 	if !obs.Alive {
 		fmt.Fprintf(&txt, "\n THE SERVER PROCESS DIED while this case ran; its stderr:\n%s", obs.Stderr)
 		tags["process_died"]++
